@@ -1,7 +1,7 @@
 //! Fixed-capacity, array-backed association-list models of std::collections::{HashMap, HashSet}.
 //! Insertion-ordered, linear search, no heap. Exceeding CAP is a hard error (reported, never silently cut).
 use std::borrow::Borrow;
-pub const CAP: usize = 8;
+pub const CAP: usize = 4; // overlay.py rewrites this line for the *8 profiles
 fn overflow() -> ! { panic!("kcoll: capacity bound exceeded") }
 
 pub struct HashMap<K, V> { pub items: [Option<(K, V)>; CAP], pub n: usize }
@@ -105,4 +105,49 @@ impl<T: Eq> HashSet<T> {
     }
     pub fn drain(&mut self) -> IntoIter<T> { self.n = 0; IntoIter { items: std::mem::take(&mut self.items), i: 0 } }
     pub fn iter(&self) -> impl Iterator<Item = &T> { self.items[..self.n].iter().filter_map(|x| x.as_ref()) }
+}
+
+/// Array-backed ring buffer model of std::collections::VecDeque (capacity DQ_CAP, overflow is a hard error).
+pub const DQ_CAP: usize = 8;
+pub struct VecDeque<T> { pub items: [Option<T>; DQ_CAP], pub head: usize, pub len: usize }
+impl<T> Default for VecDeque<T> { fn default() -> Self { Self { items: Default::default(), head: 0, len: 0 } } }
+impl<T> std::fmt::Debug for VecDeque<T> { fn fmt(&self, f: &mut std::fmt::Formatter) -> std::fmt::Result { write!(f, "VecDeque") } }
+impl<T> VecDeque<T> {
+    pub fn new() -> Self { Self::default() }
+    pub fn len(&self) -> usize { self.len }
+    pub fn is_empty(&self) -> bool { self.len == 0 }
+    pub fn push_back(&mut self, v: T) {
+        if self.len >= DQ_CAP { overflow() }
+        let i = (self.head + self.len) % DQ_CAP;
+        self.items[i] = Some(v);
+        self.len += 1;
+    }
+    pub fn push_front(&mut self, v: T) {
+        if self.len >= DQ_CAP { overflow() }
+        self.head = (self.head + DQ_CAP - 1) % DQ_CAP;
+        let h = self.head;
+        self.items[h] = Some(v);
+        self.len += 1;
+    }
+    pub fn pop_front(&mut self) -> Option<T> {
+        if self.len == 0 { return None; }
+        let h = self.head;
+        let v = self.items[h].take();
+        self.head = (self.head + 1) % DQ_CAP;
+        self.len -= 1;
+        v
+    }
+    pub fn pop_back(&mut self) -> Option<T> {
+        if self.len == 0 { return None; }
+        let i = (self.head + self.len - 1) % DQ_CAP;
+        self.len -= 1;
+        self.items[i].take()
+    }
+    pub fn front(&self) -> Option<&T> { if self.len == 0 { None } else { self.items[self.head].as_ref() } }
+    pub fn retain<F: FnMut(&T) -> bool>(&mut self, mut f: F) {
+        // rebuild in order
+        let mut out: VecDeque<T> = VecDeque::new();
+        while let Some(v) = self.pop_front() { if f(&v) { out.push_back(v); } }
+        *self = out;
+    }
 }
